@@ -1,7 +1,7 @@
 (* C06/Properties.v — property theorems only (each closed by [exact lemma] and followed by
    [Print Assumptions]).  Model: C06/Model.v (the code after fix commits 3a7f18b, 811f017, 2c8a29b). *)
 From Coq Require Import String Permutation Morphisms Sorted.
-From RM Require Import C06.Model C06.GenModel C06.Proofs C06.Proofs2 C06.Proofs3 C06.Proofs4 C06.Proofs5 C06.Proofs6 C06.Proofs7 C06.Proofs8 C06.Proofs9 C06.Proofs10 C06.Proofs11 C06.Proofs12 C06.Proofs13 C06.Driver C06.GenDriver Gen.UnwindConsts.
+From RM Require Import C06.Model C06.GenModel C06.Proofs C06.Proofs2 C06.Proofs3 C06.Proofs4 C06.Proofs5 C06.Proofs6 C06.Proofs7 C06.Proofs8 C06.Proofs9 C06.Proofs10 C06.Proofs11 C06.Proofs12 C06.Proofs13 C06.Proofs14 C06.Driver C06.GenDriver C06.ArchDriver Gen.UnwindConsts Gen.CfiOps.
 Open Scope Z_scope.
 
 (* No Panic and no OutOfFuel: for ALL rule texts (arbitrary byte strings), every walker (any
@@ -530,3 +530,135 @@ Theorem c06_gen_driver_is_driver :
      run_mock w lookup (fst (c_init r)) (c_size r) regs membase mem (snd (c_init r)) (c_add r) names).
 Proof. exact gen_driver_is_driver. Qed.
 Print Assumptions c06_gen_driver_is_driver.
+
+(* ==== Round 5, second pass: front-end B for every context whose unwinder uses CfiStackWalker ====
+   x86 / amd64 / arm64 as before, plus 32-bit ARM (aliases r11~fp r13~sp r14~lr r15~pc), MIPS (Mips32Context: the u32
+   view of the one CONTEXT_MIPS — callee values are the low 32 bits of the 64-bit slots, values must fit u32) and
+   MIPS64.  The three new tables are COMPUTED from the generated constants (C06/ArchDriver.v). *)
+
+(* all six tables: canonical names are fixed points of memoize_register and lie in REGISTERS; the names given to
+   set_cfa / set_ra are distinct canonical registers; CALLEE_SAVED_REGS is a subset of REGISTERS; the register width
+   is between 1 and 8 bytes *)
+Theorem c06_arch_tables_wellformed :
+  forall k, let a := arch_of2 k in
+    (forall n c, memoize a n = Some c -> In c (a_regs a) /\ memoize a c = Some c) /\
+    memoize a (a_sp a) = Some (a_sp a) /\ memoize a (a_ip a) = Some (a_ip a) /\ a_sp a <> a_ip a /\
+    In (a_sp a) (a_regs a) /\ In (a_ip a) (a_regs a) /\ (forall c, In c (a_saved a) -> In c (a_regs a)) /\
+    0 < a_width a <= 8.
+Proof. exact (fun k => conj (arch_wf_memoize _ (arch_tables_wf k)) (arch_wf_sp_ip _ (arch_tables_wf k))). Qed.
+Print Assumptions c06_arch_tables_wellformed.
+
+(* END TO END, every architecture k (0 x86, 1 amd64, 2 arm64, 3 arm, 4 mips, 5 mips64), every callee context with
+   values within u64, every validity set, every stack image, every INIT + delta records with documented tokens and
+   non-aliasing targets: the extracted entry point the correspondence run compares with walk_stack equals the
+   documented result cfi_spec_real (CFA first and not self-referential, .ra mandatory, every other register set from
+   its rule or unknown, width check, aliases resolved through memoize_register) followed by the hand-over of
+   <arch>::get_caller_frame. *)
+Theorem c06_real_end_to_end :
+  forall k ctx valid stackbase stack initaddr initsize init deltas,
+    ctx_wf ctx -> bytes_wf stack ->
+    let a := arch_of2 k in
+    let ip := match assoc (a_ip a) ctx with Some v => v | None => 0 end in
+    let sp := match assoc (a_sp a) ctx with Some v => v | None => 0 end in
+    let r := mkCfi (initaddr, init) initsize deltas in
+    let E := real_env2 k ctx valid stackbase stack ip in
+    all_documented r (ip - 1073741824) -> real_documented_nonaliasing a r (ip - 1073741824) ->
+    run_real2_gen k ctx valid stackbase stack initaddr initsize init deltas =
+      if negb (match valid with None => true | Some which => mem_b (a_sp a) which end)
+         || (ip <? 1073741824) || (1073741824 + 65536 <=? ip) then out_none
+      else frame_of_spec k a sp (cfi_spec_real a E r (ip - 1073741824) (real_init a ctx valid)).
+Proof. exact real_end_to_end. Qed.
+Print Assumptions c06_real_end_to_end.
+
+(* arm / mips / mips64 hand-over: the walker's context and validity set reach walk_stack unchanged; the frame exists
+   iff pc >= 4096 and the stack pointer did not go down (the context frame may be a leaf: equality is allowed) *)
+Theorem c06_frame_handover_arm_mips :
+  forall k a callee_sp s, 3 <= k ->
+    match post_real2 k a callee_sp s with
+    | Some s1 => s1 = s /\ 4096 <= r_ctx s (a_ip a) /\ callee_sp <= r_ctx s (a_sp a)
+    | None => r_ctx s (a_ip a) < 4096 \/ r_ctx s (a_sp a) < callee_sp
+    end.
+Proof. exact handover_arm_mips. Qed.
+Print Assumptions c06_frame_handover_arm_mips.
+
+(* the observation (values of the valid registers among REGISTERS) loses nothing: the validity set of the documented
+   result never leaves REGISTERS when it starts from the forwarded callee-saved registers *)
+Theorem c06_real_observation_complete :
+  forall k E r addr ctx valid c v,
+    cfi_spec_real (arch_of2 k) E r addr (real_init (arch_of2 k) ctx valid) = Some (c, v) ->
+    forall n, v n = true -> In n (a_regs (arch_of2 k)).
+Proof.
+  exact (fun k E r addr ctx valid c v H =>
+    spec_real_valid_in_regs _ E r addr _ c v (arch_tables_wf k) (real_init_valid_in_regs _ ctx valid (arch_tables_wf k)) H).
+Qed.
+Print Assumptions c06_real_observation_complete.
+
+(* on the architectures of rounds 1-5 the new entry point is the old one (which C07 builds on) *)
+Theorem c06_real_entry_point_extends :
+  forall k ctx valid stackbase stack initaddr initsize init deltas, k < 3 ->
+    run_real2_gen k ctx valid stackbase stack initaddr initsize init deltas =
+    run_real_gen k ctx valid stackbase stack initaddr initsize init deltas.
+Proof. exact run_real2_old. Qed.
+Print Assumptions c06_real_entry_point_extends.
+
+(* non-vacuity: the computed tables *)
+Example c06_nonvacuous_arch2 :
+  arm = mkArch 4 (map bs ["r0"; "r1"; "r2"; "r3"; "r4"; "r5"; "r6"; "r7"; "r8"; "r9"; "r10"; "r12"; "fp"; "sp"; "lr"; "pc"]%string)
+               [(bs "r11", bs "fp"); (bs "r13", bs "sp"); (bs "r14", bs "lr"); (bs "r15", bs "pc")] (bs "sp") (bs "pc")
+               (map bs ["r4"; "r5"; "r6"; "r7"; "r8"; "r9"; "r10"; "fp"]%string) /\
+  mips32 = mkArch 4 (map bs ["gp"; "sp"; "fp"; "ra"; "pc"; "s0"; "s1"; "s2"; "s3"; "s4"; "s5"; "s6"; "s7"]%string) []
+               (bs "sp") (bs "pc") (map bs ["s0"; "s1"; "s2"; "s3"; "s4"; "s5"; "s6"; "s7"; "gp"; "sp"; "fp"]%string) /\
+  mips64 = mkArch 8 (a_regs mips32) [] (bs "sp") (bs "pc") (a_saved mips32) /\
+  memoize arm (bs "r11") = Some (bs "fp") /\ memoize arm (bs "r15") = Some (bs "pc") /\ memoize arm (bs "r16") = None /\
+  memoize mips32 (bs "r11") = None.
+Proof. vm_compute. repeat split; reflexivity. Qed.
+
+(* non-vacuity of c06_real_end_to_end, 32-bit ARM: an alias as rule target (r11 = fp, read from the stack), a value
+   that does not fit u32 (r0 stays unknown), `.undef` (r5 forwarded by default, now unknown); the answer is the one
+   walk_stack gave for this input *)
+Example c06_nonvacuous_end_to_end_arm :
+  let ctx := [(bs "pc", 1073742080); (bs "sp", 2147483648); (bs "fp", 2147483680); (bs "r4", 11); (bs "r5", 12); (bs "r0", 14)] in
+  let stack := [1;2;3;4;5;6;7;8;9;10;11;12;13;14;15;16] in
+  let init := bs ".cfa: sp 16 + .ra: 1073742080 r4: 7 r11: .cfa 8 - ^ r0: 4294967296 r5: .undef" in
+  let r := mkCfi (0, init) 4096 [] in
+  ctx_wf ctx /\ bytes_wf stack /\ all_documented r 256 /\ real_documented_nonaliasing arm r 256 /\
+  let o := run_real2_gen 3 ctx None 2147483648 stack 0 4096 init [] in
+  o_status o = 1 /\
+  o_regs o = [(bs "r4", 7); (bs "r6", 0); (bs "r7", 0); (bs "r8", 0); (bs "r9", 0); (bs "r10", 0);
+              (bs "fp", 202050057); (bs "sp", 2147483664); (bs "pc", 1073742080)].
+Proof.
+  split; [intros n v H; cbn [In] in H; repeat (destruct H as [H|H]; [injection H as _ <-; vm_compute; split; [discriminate|reflexivity]|]); contradiction|].
+  split; [intros b H; cbn [In] in H; repeat (destruct H as [<-|H]; [vm_compute; split; [discriminate|reflexivity]|]); contradiction|].
+  split; [|split; [|vm_compute; split; reflexivity]].
+  - intros ps H. vm_compute in H. inversion H; subst ps.
+    repeat constructor; cbn [snd]; intro D; vm_compute in D; discriminate D.
+  - unfold real_documented_nonaliasing.
+    assert (T : targets (texts_of (mkCfi (0, bs ".cfa: sp 16 + .ra: 1073742080 r4: 7 r11: .cfa 8 - ^ r0: 4294967296 r5: .undef") 4096 []) 256)
+                = [bs "r4"; bs "r11"; bs "r0"; bs "r5"]) by (vm_compute; reflexivity).
+    rewrite T. intros n1 n2 H1 H2 Hne. cbn [In] in H1, H2.
+    destruct H1 as [H1|[H1|[H1|[H1|[]]]]], H2 as [H2|[H2|[H2|[H2|[]]]]]; subst n1 n2;
+      try (exfalso; apply Hne; reflexivity); right; right; vm_compute; intro H; discriminate H.
+Qed.
+
+(* MIPS, 32-bit view: the evaluator sees the low 32 bits of a callee register (s0 = 2^32 + 3 reads as 3), the caller
+   context keeps the 64-bit slot of a forwarded register; sp is among the forwarded registers and is overwritten by
+   the CFA; the answer is the one walk_stack gave for this input *)
+Example c06_nonvacuous_end_to_end_mips :
+  let ctx := [(bs "pc", 1073742080); (bs "sp", 2147483648); (bs "fp", 5); (bs "s0", 4294967299); (bs "gp", 77); (bs "ra", 9)] in
+  let init := bs ".cfa: sp 16 + .ra: 1073742080 s1: s0 1 +" in
+  let r := mkCfi (0, init) 4096 [] in
+  ctx_wf ctx /\ all_documented r 256 /\ real_documented_nonaliasing mips32 r 256 /\
+  o_regs (run_real2_gen 4 ctx (Some [bs "pc"; bs "sp"; bs "s0"]) 2147483648 [] 0 4096 init []) =
+    [(bs "sp", 2147483664); (bs "pc", 1073742080); (bs "s0", 4294967299); (bs "s1", 4)] /\
+  o_regs (run_real2_gen 5 ctx (Some [bs "pc"; bs "sp"; bs "s0"]) 2147483648 [] 0 4096 init []) =
+    [(bs "sp", 2147483664); (bs "pc", 1073742080); (bs "s0", 4294967299); (bs "s1", 4294967300)].
+Proof.
+  split; [intros n v H; cbn [In] in H; repeat (destruct H as [H|H]; [injection H as _ <-; vm_compute; split; [discriminate|reflexivity]|]); contradiction|].
+  split; [|split; [|vm_compute; split; reflexivity]].
+  - intros ps H. vm_compute in H. inversion H; subst ps.
+    repeat constructor; cbn [snd]; intro D; vm_compute in D; discriminate D.
+  - unfold real_documented_nonaliasing.
+    assert (T : targets (texts_of (mkCfi (0, bs ".cfa: sp 16 + .ra: 1073742080 s1: s0 1 +") 4096 []) 256) = [bs "s1"]) by (vm_compute; reflexivity).
+    rewrite T. intros n1 n2 H1 H2 Hne. cbn [In] in H1, H2.
+    destruct H1 as [H1|[]], H2 as [H2|[]]; subst n1 n2. exfalso; apply Hne; reflexivity.
+Qed.
